@@ -359,7 +359,44 @@ pub fn ops_for(len: usize, tier: Tier) -> Vec<Value> {
     ops
 }
 
+/// Round trip of a model with `n` one-character dictionary entries through slice and reader.
+pub fn check_huge(n: usize) -> Option<(String, String)> {
+    let spec = ModelSpec {
+        dict_model: (0..n).map(|i| WordWeightRecord { word: char::from_u32(0x4e00 + (i % 20000) as u32).unwrap().to_string(), weights: vec![(i % 7) as i32 - 3, 1], comment: String::new() }).collect(),
+        char_window_size: 1,
+        type_window_size: 1,
+        ..Default::default()
+    };
+    let bytes = spec.to_bytes();
+    drop(spec);
+    let r = guard(|| {
+        let (m, rest) = Model::read_slice(&bytes).map_err(|e| format!("read_slice rejected the serialisation of a {n}-entry model ({} bytes): {e}", bytes.len()))?;
+        if !rest.is_empty() {
+            return Err("rest not empty".to_string());
+        }
+        if m.to_vec().map_err(|e| e.to_string())? != bytes {
+            return Err("to_vec(read_slice(b)) != b".to_string());
+        }
+        drop(m);
+        let m2 = Model::read(&bytes[..]).map_err(|e| format!("read rejected the serialisation of a {n}-entry model: {e}"))?;
+        let mut w = Vec::with_capacity(bytes.len());
+        m2.write(&mut w).map_err(|e| e.to_string())?;
+        if w != bytes {
+            return Err("write(read(b)) != b".to_string());
+        }
+        Ok::<(), String>(())
+    });
+    match r {
+        Err(p) => Some(("huge-panic".into(), p)),
+        Ok(Err(e)) => Some(("huge-roundtrip".into(), e)),
+        Ok(Ok(())) => None,
+    }
+}
+
 pub fn replay(c: &Value) -> Option<(String, String)> {
+    if let Some(n) = c["huge"].as_u64() {
+        return check_huge(n as usize).map(|(k, w)| (format!("{k} model=huge-4M-dictionary-entries"), w));
+    }
     let b: Vec<u8> = serde_json::from_value(c["bytes"].clone()).ok()?;
     let name = c["model"].as_str()?;
     check_case(&b, &c["op"]).map(|(k, w)| (format!("{k} model={name} op={}", c["op"]), w))
@@ -388,6 +425,16 @@ pub fn run(tier: Tier) -> ! {
             }
         });
     });
+    // scale: one very large model (thorough only). Resource limits of the decoder (allocation /
+    // size limits) depend on the number of entries, not on their content.
+    if tier == Tier::Thorough {
+        chk.eval(1);
+        chk.nontrivial(1);
+        if let Some((k, what)) = check_huge(4_000_000) {
+            chk.violation(format!("{k} model=huge-4M-dictionary-entries"), what, json!({"huge": 4_000_000u64}));
+        }
+        chk.set("huge_model_entries", json!(4_000_000u64));
+    }
     chk.sample(json!({"model": "resources/model.bin", "op": {"op": "prefix-slice", "k": 24}}));
     chk.sample(json!({"model": "varints", "op": {"op": "read-fault", "k": 100, "fault": 2, "chunk": 5}, "meaning": "reader delivers <=5 bytes per call and returns ErrorKind::Interrupted once after 100 bytes: reading must still succeed"}));
     chk.sample(json!({"model": "empty", "op": {"op": "write-fault", "k": 30, "fault": 1, "chunk": 1}, "meaning": "writer takes 1 byte per call and returns Ok(0) after 30 bytes: write must fail, bytes taken must be a prefix"}));
